@@ -14,7 +14,7 @@ CASES = [
     m('output-reset-in-run', 'R1', 'raw_output:assign@Sandbox.run', "        self.target = None\n        self._execute(code, filename, SandboxContextKind.RUN, threaded)", "        self.target = None\n        self.raw_output = \"\"\n        self._execute(code, filename, SandboxContextKind.RUN, threaded)"),
     m('stop-mocking-records-empty', 'R2', '_stop_mocking', "        self.append_output(current_stdout.getvalue(), context)", "        self.append_output(\"\", context)"),
     m('stop-mocking-wrong-context', 'R2', '_stop_mocking', "        self.append_output(current_stdout.getvalue(), context)", "        self.append_output(current_stdout.getvalue(), self._context[0])"),
-    m('buffer-reused', 'R2', '_start_mocking:fresh-buffer', "            self._current_stdout.append(io.StringIO())", "            self._current_stdout.append(self._shared_buffer)"),
+    m('buffer-reused', 'R2', '_start_mocking:fresh-buffer', "            captured_stdout = io.StringIO()", "            captured_stdout = self._shared_buffer"),
     m('pop-from-back', 'R4', 'input[', "                value_entered = self.inputs.pop(0)", "                value_entered = self.inputs.pop()"),
     m('prompt-not-echoed-when-empty', 'R4', 'input[queue=[]', "                # TODO: Make this smarter, more elegant in choosing IF we should repeat 0\n                print(prompt)\n", "                # TODO: Make this smarter, more elegant in choosing IF we should repeat 0\n"),
     m('input-not-consumed', 'R4', 'input[', "                value_entered = self.inputs.pop(0)", "                value_entered = self.inputs[0]"),
